@@ -1130,4 +1130,12 @@ theorem nonvacuous_listBuilder_generated :
     FuncsDom.listBuilderMustSet [.leaf ⟨"int", "1"⟩] 0 (.leaf ⟨"int", "9"⟩) = .ok [.leaf ⟨"int", "9"⟩] := by
   decide +kernel
 
+/-- dom.ListNode(items...) -/
+theorem ListNode_generated_eq_model (items : List Node) : FuncsDom.ListNode items = .ok items :=
+  FuncsDomBuilder.ListNode_generated_eq_model items
+
+/-- ContainerBuilder.Remove(name) is the model's `remove` (the definition behind `GoDom.remove`) -/
+theorem containerBuilderRemove_generated_eq_model (c : AMap Node) (name : String) :
+    FuncsDom.containerBuilderRemove c name = .ok (remove c name) := rfl
+
 end Ytk.C03
